@@ -130,7 +130,7 @@ fn fuzz(ctx: &Ctx, case: u64, acc: &mut Acc, mode: Mode) -> Verdict {
     let me = d.node.id();
     let codec = d.node.codec;
     d.node = Node::new(me, cfg, codec, hcfg, d.r.next());
-    let steps = if mode == Mode::BigItems { 40 } else { 250 };
+    let steps = if cfg!(miri) { 30 } else if mode == Mode::BigItems { 40 } else { 250 };
     let mut calls = 0u64;
     for _ in 0..steps {
         if d.node.poisoned {
